@@ -257,7 +257,7 @@ theorem promoted_read_before_assignment :
     setup := .seq (.ifs (.cmp .gt (.var "c") (.int 0)) (.assign "x" (.int 5)) .skip) (.write (.bin .add (.var "x") (.int 0)))
     loop := .skip }
   have h : tr2 p = .ok c0 := by
-    simp [p, c0, tr2, tr2Core, withHelpers, Prog.resolved, helpersOk, Stmt.callsOk, trHelpers, Prog.numbered, Stmt.numberedFrom, Stmt.tmpEnd, trTop2, trTop, trChain2, trBody2, trNested, sortDecls, newDecls, addPromoted,
+    simp [p, c0, tr2, tr2Core, withHelpers, Prog.resolved, Prog.sigsOk, helpersOk, Stmt.callsOk, Stmt.valueCalls, trHelpers, Prog.numbered, Stmt.numberedFrom, Stmt.tmpEnd, trTop2, trTop, trChain2, trBody2, trNested, sortDecls, newDecls, addPromoted,
       Reduino.Lemmas.C01p.sorted_single, inferTy, evalConst, Expr.nameFree, Py.eval, defaultOf, seqOf, List.lookup,
       bind, Except.bind, pure, Except.pure, Except.toOption]
   exact ⟨by rfl, c0, h, by rfl⟩
@@ -274,7 +274,7 @@ example :
       Py.run p 2 80 = .ok [.write "7", .write "8", .write "9"] := by
   intro p
   have h : ∃ c, tr2 p = .ok c ∧ c.globals.map (·.1) = ["c", "abe", "zed", "s"] := by
-    simp [p, tr2, tr2Core, withHelpers, Prog.resolved, helpersOk, Stmt.callsOk, trHelpers, Prog.numbered, Stmt.numberedFrom, Stmt.tmpEnd, trTop2, trTop, trChain2, trBody2, trNested, sortDecls, newDecls, addPromoted,
+    simp [p, tr2, tr2Core, withHelpers, Prog.resolved, Prog.sigsOk, helpersOk, Stmt.callsOk, Stmt.valueCalls, trHelpers, Prog.numbered, Stmt.numberedFrom, Stmt.tmpEnd, trTop2, trTop, trChain2, trBody2, trNested, sortDecls, newDecls, addPromoted,
       Reduino.Lemmas.C01p.sorted_single, Reduino.Lemmas.C01p.sorted_zed_abe, inferTy, evalConst, Expr.nameFree, Py.eval,
       defaultOf, seqOf, List.lookup, foldArg, bind, Except.bind, pure, Except.pure, Except.toOption]
   exact ⟨by decide, by decide, h, by rfl⟩
@@ -381,5 +381,55 @@ example : tr { pre := .seq (.assign "a" (.int 1)) (.seq (.assign "b" (.int 2)) (
 /-- a first assignment by tuple (the all-new-at-global-scope form, or the local declarations of finding F17) is outside the model -/
 example : tr { pre := .seq (.assign "a" (.int 1)) (.tuple 0 ["a", "b"] [.int 2, .var "a"]), body := none }
     = .error .outsideFragment := by rfl
+
+/-! ### W6, increment 1: helper functions are in the model (syntax, both semantics, `tr`, rendering), not yet in `InF` -/
+
+/-- `def shout(v): mon.write(v); sleep(5)` / `def scale(v, flag): t = v * 2; if flag: t = t + 1; shout(t); return t`, then
+    `a = 0; a = scale(4, True); shout(a)` and `a = scale(a, False)` in the main loop: accepted (the statements carry the definitions they
+    call: `Prog.resolve`), both semantics run it to the same trace, the emitted text has the two prototypes (more than one definition),
+    the definitions with the local declared at its first assignment, and the calls.  `InF` does not admit calls yet: the theorems above
+    do not speak about this program (increment 1 ties the model of helpers to the transpiler, CPython and g++ through T, S_py, S_c). -/
+example :
+    let shout : Helper := { name := "shout", ps := [("v", .int)], body := .seq (.write (.var "v")) (.sleep (.int 5)), ret := none }
+    let scale : Helper := { name := "scale", ps := [("v", .int), ("flag", .bool)], ret := some (.var "t"), body := .seq (.assign "t" (.bin .mul (.var "v") (.int 2))) (.seq (.ifs (.var "flag") (.assign "t" (.bin .add (.var "t") (.int 1))) .skip) (.call none "shout" [] [] .int .skip none [.var "t"])) }
+    let p : Prog := Prog.resolve
+      { pre := .seq (.assign "a" (.int 0)) (.seq (.call (some "a") "scale" [] [] .int .skip none [.int 4, .bool true])
+                  (.call none "shout" [] [] .int .skip none [.var "a"])),
+        body := some (.call (some "a") "scale" [] [] .int .skip none [.var "a", .bool false]),
+        helpers := [shout, scale] }
+    p.resolved = true ∧ InF p = false ∧
+      Py.run p 2 50 = .ok [.write "9", .delay 5, .write "9", .delay 5, .write "18", .delay 5, .write "36", .delay 5] ∧
+      (∃ c, tr p = .ok c ∧
+        C.run c 2 50 = .ok [.write "9", .delay 5, .write "9", .delay 5, .write "18", .delay 5, .write "36", .delay 5] ∧
+        c.lines = ["#include <Arduino.h>", "int a = 0;", "void shout(int v);", "int scale(int v, bool flag);",
+          "void shout(int v) {", "Serial.println(v);", "delay(5);", "}",
+          "int scale(int v, bool flag) {", "int t = (v * 2);", "if (flag) {", "t = (t + 1);", "}", "shout(t);", "return t;", "}",
+          "void setup() {", "Serial.begin(9600);", "a = scale(4, true);", "shout(a);", "}",
+          "void loop() {", "a = scale(a, false);", "}"]) := by
+  intro shout scale p
+  exact ⟨by decide +kernel, by decide +kernel, by rfl, _, rfl, by rfl, by decide +kernel⟩
+
+/-- one definition: no prototype (`if len(functions) > 1`); a helper that is only ever called as a STATEMENT is emitted with all-int
+    parameters (the definition-time parse; nothing requests another signature), so the model refuses a bool-typed parameter there -/
+example :
+    let mk (t : Ty) : Prog := Prog.resolve
+      { pre := .seq (.assign "a" (.int 1)) (.call none "say" [] [] .int .skip none [.cmp .lt (.var "a") (.int 2)]),
+        body := none, helpers := [{ name := "say", ps := [("f", t)], body := .ifs (.var "f") (.write (.int 1)) .skip, ret := none }] }
+    tr (mk .bool) = .error .outsideFragment ∧
+    (let q : Prog := Prog.resolve
+      { pre := .seq (.assign "a" (.int 1)) (.call none "say" [] [] .int .skip none [.var "a"]),
+        body := none, helpers := [{ name := "say", ps := [("f", .int)], body := .ifs (.var "f") (.write (.int 1)) .skip, ret := none }] }
+     ∃ c, tr q = .ok c ∧ c.lines = ["#include <Arduino.h>", "int a = 1;", "void say(int f) {", "if (f) {", "Serial.println(1);", "}", "}",
+        "void setup() {", "Serial.begin(9600);", "say(a);", "}", "void loop() {", "}"] ∧ C.run c 0 50 = .ok [.write "1"] ∧
+        Py.run q 0 50 = .ok [.write "1"]) := by
+  intro mk
+  exact ⟨by rfl, _, rfl, by decide +kernel, by rfl, by rfl⟩
+
+/-- no recursion: a body may call EARLIER helpers only (`helpersOk`), so a self-call is not a translation unit of the model -/
+example :
+    let p : Prog := { pre := .skip, body := none, helpers := [{ name := "f", ps := [("n", .int)], body := .call none "f" [("n", .int)] [] .int .skip none [.var "n"], ret := none }] }
+    p.resolved = false ∧ tr p = .error .outsideFragment := by
+  intro p
+  exact ⟨by decide +kernel, by rfl⟩
 
 end Reduino.Props.C01
